@@ -62,6 +62,20 @@ M = [
     ("c09-end-keeps-terminal", "C09", "xonsh/procs/pipelines.py", "        self._end(tee_output=tee_output)\n        self._return_terminal()", "        self._end(tee_output=tee_output)"),
     # (c09-failed-start-keeps-terminal: dropping _return_terminal() from the failed-start branch of CommandPipeline.__init__ is an equivalent mutant - end() returns the terminal right afterwards)
     ("c09-error-raise-keeps-terminal", "C09", "xonsh/procs/pipelines.py", "                raise subprocess.CalledProcessError(rtn, spec.args, output=self.output)\n            finally:\n                # needed to get a working terminal in interactive mode\n                self._return_terminal()\n            return", "                raise subprocess.CalledProcessError(rtn, spec.args, output=self.output)\n            finally:\n                pass\n            return"),
+    # ---- C14 more
+    ("c14-locked-deleted", "C14", "xonsh/history/json.py", '                if only_unlocked and lj.get("locked", False):', '                if only_unlocked and lj.get("locked", False) and False:'),
+    ("c14-refusal-off", "C14", "xonsh/history/json.py", "        if self.force_gc or size_over < hsize:", "        if self.force_gc or size_over <= hsize * 4:"),
+    # ---- C01 / C03 lexer + parser
+    ("c01-floordiv-token", "C01", "xonsh/parsers/lexer.py", '"//=": "DOUBLEDIVEQUAL",', '"//=": "DIVEQUAL",'),
+    ("c01-store-ctx-shallow", "C01", "xonsh/parsers/base.py", "    x.ctx = ast.Store()\n    if isinstance(x, ast.Tuple | ast.List):\n        for e in x.elts:", "    x.ctx = ast.Store()\n    if isinstance(x, ast.Tuple):\n        for e in x.elts:"),
+    # ---- C06 capture
+    ("c06-closed-before-put", "C06", "xonsh/procs/readers.py", "        if c:\n            queue.put(c)\n        else:\n            reader.closed = True\n            break", "        if len(c) < 1024:\n            reader.closed = True\n        if c:\n            queue.put(c)\n        else:\n            reader.closed = True\n            break"),
+    ("c06-one-line-strips-more", "C06", "xonsh/procs/pipelines.py", '                return lines[0].rstrip("\\n")', '                return lines[0].rstrip()'),
+    # ---- C12 history
+    ("c12-len-after-flush", "C12", "xonsh/history/json.py", "        self.buffer.append(cmd)\n        self._len += 1  # must come before flushing\n", "        self.buffer.append(cmd)\n"),
+    ("c12-front-always", "C12", "xonsh/history/json.py", '        """Tests if the flusher is at the front of the queue."""\n        return self is self.queue[0]', '        """Tests if the flusher is at the front of the queue."""\n        return True'),
+    # ---- C18 completion quoting
+    ("c18-quote-choice", "C18", "xonsh/completers/path.py", "    if single in x and double not in x:\n        return double", "    if single in x and double in x:\n        return double"),
 ]
 
 
